@@ -76,6 +76,12 @@ func VerifC10Clean() {
 	prune := verifParam("prune", 0)
 	h := newHist(1000)
 	t := h.newTwin()
+	if verifParam("rich", 0) == 1 {
+		h.richState()
+		for _, hd := range h.hdr[1:] {
+			t.repo.ProcessHeader(h.ctx, hd)
+		}
+	}
 	for s := 0; s < steps; s++ {
 		op := pick(fmt.Sprintf("op%d", s), 2)
 		switch op {
@@ -111,6 +117,12 @@ func VerifC11SaveLoad() {
 	prune := verifParam("prune", 0)
 	h := newHist(1000)
 	t := h.newTwin() // never saved or loaded
+	if verifParam("rich", 0) == 1 {
+		h.richState()
+		for _, hd := range h.hdr[1:] {
+			t.repo.ProcessHeader(h.ctx, hd)
+		}
+	}
 	for s := 0; s < steps; s++ {
 		op := pick(fmt.Sprintf("op%d", s), ops)
 		switch op {
